@@ -57,21 +57,53 @@ def _x_path_mkdir(ex, args, kwargs, lineno):
     return VNone()
 
 
-def _dump(name, exc):
+json_serialisable = uf("json_serialisable", [Dict], Bool)   # every value is a JSON value (dict/list/str/int/float/bool/None)
+has_nonfinite = uf("has_nonfinite", [Dict], Bool)           # some float value is inf / -inf / nan
+yaml_representable = uf("yaml_representable", [Dict], Bool)  # PyYAML's default Dumper has a representer for every value
+fs_write_fails = uf("fs_write_fails", [FileT], Bool)        # the device rejects the write (disk full, ...)
+
+JSON_DUMP_OPTIONS = {"indent", "sort_keys", "ensure_ascii", "allow_nan", "separators"}
+YAML_DUMP_OPTIONS = {"default_flow_style", "sort_keys", "allow_unicode", "indent", "width"}
+
+
+def _dump_handler(kind):
     def h(ex, args, kwargs, lineno):
-        """<yaml|json>.dump(doc, file, ...): writes the document to the file (effect fs_write); may raise."""
-        if len(args) >= 2:
-            _fs_effect(ex, "fs_write", lineno)
-        b = z3.Const(fresh_name(f"ext.raises.{exc}"), z3.BoolSort())
-        if ex.merge_depth == 0 and ex.spec_depth == 0 and ex.decide(b):
-            raise RaiseSig(VExc(exc))
-        return VNone() if len(args) >= 2 else VStr(z3.Const(fresh_name("dumped"), z3.StringSort()))
-    h.__doc__ = f"{name}(doc, file, ...): writes the document (effect fs_write); may raise {exc}"
+        """<json|yaml>.dump(doc, file, **options): streams the document to the open file (effect fs_write, possibly
+        partial). Fails with the serialiser's own error exactly when the document is outside what the serialiser accepts
+        UNDER THE GIVEN OPTIONS (json: TypeError iff not json_serialisable(doc); with allow_nan=False additionally
+        ValueError iff has_nonfinite(doc); yaml: YAMLError iff not yaml_representable(doc)), with OSError iff
+        fs_write_fails(file). Options outside the modelled set are Unsupported (never silently ignored)."""
+        allowed = JSON_DUMP_OPTIONS if kind == "json" else YAML_DUMP_OPTIONS
+        unknown = sorted(set(kwargs) - allowed)
+        if unknown or len(args) != 2:
+            raise Unsupported(f"{kind}.dump with options {unknown} / {len(args)} positional arguments")
+        if ex.merge_depth > 0 or ex.spec_depth > 0:
+            return VNone()
+        _fs_effect(ex, "fs_write", lineno)
+        doc = Dict.pack(args[0])
+        B = z3.BoolSort()
+        if kind == "json":
+            if not ex.decide(z3.Function("uf.json_serialisable", Dict.sort(), B)(doc)):
+                raise RaiseSig(VExc("TypeError"))
+            an = kwargs.get("allow_nan")
+            if an is not None:
+                c = concrete_of(an)
+                if c is NOCONST:
+                    raise Unsupported("json.dump with a symbolic allow_nan")
+                if not c and ex.decide(z3.Function("uf.has_nonfinite", Dict.sort(), B)(doc)):
+                    raise RaiseSig(VExc("ValueError"))
+        else:
+            if not ex.decide(z3.Function("uf.yaml_representable", Dict.sort(), B)(doc)):
+                raise RaiseSig(VExc("YAMLError"))
+        if ex.decide(z3.Function("uf.fs_write_fails", FileT.sort(), B)(args[1].t)):
+            raise RaiseSig(VExc("OSError"))
+        ex.ufs_used.add(f"{kind}.dump: fails iff the document is outside the serialiser's domain under the given options, or the device fails")
+        return VNone()
     return h
 
 
-external("yaml.dump")(_dump("yaml.dump", "YAMLError"))
-external("json.dump")(_dump("json.dump", "TypeError"))
+external("yaml.dump")(_dump_handler("yaml"))
+external("json.dump")(_dump_handler("json"))
 
 cwd = uf("cwd", [], PathT, concrete=lambda: __import__("pathlib").Path.cwd())
 home = uf("home", [], PathT, concrete=lambda: __import__("pathlib").Path.home())
@@ -187,18 +219,26 @@ class ValidateBeforeSave:
         return not config_valid(config)
 
 
-@contract(CF + "_write_yaml_config", no_selftest=True, props=["C20"], types=dict(config=Dict, path=PathT, f=FileT), raises=["OSError", "YAMLError"],
-          effects=["fs_write"])
+@contract(CF + "_write_yaml_config", no_selftest=True, props=["C20"], types=dict(config=Dict, path=PathT, f=FileT),
+          raises=["OSError", "YAMLError"], effects=["fs_write"])
 class WriteYamlConfig:
-    def ensures(config, path):
-        return True
+    """Effect ordering of the write path (property text: "a rejected value leaves the file byte-for-byte unchanged"):
+    once the file has been opened for writing (truncated) only an I/O failure may interrupt the write -- for every
+    document the serialiser accepts, i.e. every configuration that can be loaded or set, no serialiser option may turn
+    an accepted value into an error raised AFTER the truncation."""
+
+    def on_raise_only_io_errors_interrupt_a_started_write(config, path, exc_class, effects):
+        return implies("fs_write" in effects and yaml_representable(config), exc_class == "OSError")
 
 
-@contract(CF + "_write_json_config", no_selftest=True, props=["C20"], types=dict(config=Dict, path=PathT, f=FileT), raises=["OSError", "TypeError"],
-          effects=["fs_write"])
+@contract(CF + "_write_json_config", no_selftest=True, props=["C20"], types=dict(config=Dict, path=PathT, f=FileT),
+          raises=["OSError", "TypeError"], effects=["fs_write"])
 class WriteJsonConfig:
-    def ensures(config, path):
-        return True
+    """Same effect-ordering clause for JSON: every JSON-serialisable configuration (floats included, finite or not: they
+    are what json.load / _convert_value_type produce) is written completely or fails with an I/O error only."""
+
+    def on_raise_only_io_errors_interrupt_a_started_write(config, path, exc_class, effects):
+        return implies("fs_write" in effects and json_serialisable(config), exc_class == "OSError")
 
 
 @contract(CF + "_write_config_file", no_selftest=True, props=["C20"], types=dict(config=Dict, path=PathT),
@@ -324,6 +364,7 @@ class GenerateConfigContent:
 from pyvc.api import Assoc, lemma as _lemma, ih, as_items  # noqa: E402
 from contracts.c05_parse import dict_items, yaml_doc, json_doc, file_of, suffix_lower  # noqa: E402
 from contracts.c05_config import norm_fold  # noqa: E402
+from contracts.c09_paths import fs_exists  # noqa: E402
 
 
 def merge_fold(items: Assoc(Any), acc: Dict) -> Dict:
@@ -425,3 +466,51 @@ class LoadAndMergeConfig:
     def ensures_json_file_merged_over_the_defaults(config_path, result):
         return implies(suffix_lower(config_path) == ".json",
                        result == merge_fold(dict_items(norm_fold(dict_items(json_doc(file_of(config_path))), {})), DEFAULTS))
+
+
+# =================================================================== src/config.py: the explicit-path load (what --config FILE does)
+@contract(CF + "_validate_and_return_config", props=["C20"], types=dict(config=Dict, config_path=PathT, is_valid=Bool, errors=SeqOf(Str)),
+          returns=Dict, raises=["ConfigError"], no_selftest=True)
+class ValidateAndReturnConfig:
+    """A loaded configuration is handed on unchanged, or rejected as a whole when it is not valid."""
+
+    def raises_when(config, config_path):
+        return not config_valid(config)
+
+    def value(config, config_path):
+        return config
+
+
+def loaded_from(config_path):
+    """The user's file (YAML or JSON by extension, top-level keys normalised) merged over DEFAULT_CONFIG."""
+    return merge_fold(dict_items(norm_fold(dict_items(
+        (yaml_doc(file_of(config_path)) if yaml_doc(file_of(config_path)) is not None else {})
+        if suffix_lower(config_path) in (".yaml", ".yml") else json_doc(file_of(config_path))), {})), DEFAULTS)
+
+
+@contract(CF + "_load_from_explicit_path", props=["C20"], types=dict(config_path=PathT, merged_config=Dict), returns=Dict,
+          raises=["ConfigError"], no_selftest=True)
+class LoadFromExplicitPath:
+    def requires(config_path):
+        return isinstance(yaml_doc(file_of(config_path)), dict) or yaml_doc(file_of(config_path)) is None
+
+    def ensures_missing_file_gives_the_defaults(config_path, result):
+        return implies(not fs_exists(config_path), result == DEFAULTS)
+
+    def ensures_existing_file_is_merged_over_the_defaults_and_valid(config_path, result):
+        return implies(fs_exists(config_path) and suffix_lower(config_path) in (".yaml", ".yml", ".json"),
+                       result == loaded_from(config_path) and config_valid(result))
+
+
+@contract(CF + "load_config", props=["C20"], types=dict(config_path=Opt(PathT)), returns=Dict, raises=["ConfigError"],
+          no_selftest=True)
+class LoadCliConfig:
+    """`thailint --config FILE config get KEY` prints a value of THIS dict (the default-location search without --config
+    reads module state CONFIG_LOCATIONS and is not modelled)."""
+
+    def requires(config_path):
+        return config_path is not None and (isinstance(yaml_doc(file_of(config_path)), dict) or yaml_doc(file_of(config_path)) is None)
+
+    def ensures_existing_file_is_merged_over_the_defaults_and_valid(config_path, result):
+        return implies(fs_exists(config_path) and suffix_lower(config_path) in (".yaml", ".yml", ".json"),
+                       result == loaded_from(config_path) and config_valid(result))
